@@ -24,6 +24,8 @@ class Sched:
         self.results = {}
         self.deadlock = False
         self.atomic = False         # while set, line events do not count as steps (harness-side atomic section)
+        self.max_steps = 20000      # a run that needs more line steps than this is looping (livelock), not working
+        self.livelock = False
 
     # -- called from traced threads
     def _tracer(self, name):
@@ -41,15 +43,23 @@ class Sched:
     def _yield(self, name, lineno):
         if self.atomic:
             return
+        if self.livelock:
+            raise RuntimeError("step bound exceeded")
         with self.cv:
             self.step += 1
+            if self.step > self.max_steps:
+                self.livelock = self.deadlock = True
+                self.cv.notify_all()
+                raise RuntimeError("step bound exceeded")
             self.steplog.append((name, lineno))
             want = self.switches.get(self.step)
             if want is not None and want != name and want in self._runnable():
                 self.cur = want
                 self.cv.notify_all()
             while self.cur != name:
-                self.cv.wait()
+                self.cv.wait(1.0)
+                if self.livelock:
+                    raise RuntimeError("step bound exceeded")
 
     def wait_until(self, name, pred):
         """Block actor `name` (inside the harness, not inside library code) until pred() holds."""
